@@ -1,7 +1,7 @@
 (* Extraction of the C17 models for the correspondence check. ExtrOcamlBasic only. *)
 From V.lib Require Import Base.
 From V.c13 Require Import C13Spec C13Model.
-From V.c17 Require Import C17Spec C17Model C17TypedModel C17HistModel C17TieModel C17NaluModel.
+From V.c17 Require Import C17Spec C17Model C17TypedModel C17HistModel C17TieModel C17NaluModel C17SizeModel.
 Require Import ExtrOcamlBasic.
 Separate Extraction
   Z nat msg xres write_sei_messages extract_sei_data
@@ -10,5 +10,6 @@ Separate Extraction
   pt_size pt_payload pt_payload_spec pt_decode pt_canonical
   mdcv_size mdcv_payload mdcv_decode cll_size cll_payload cll_decode
   typed typed_type typed_canonical typed_observe tc_decode_go pt_decode_go
+  tc_widths_ok pt_widths_ok
   sei_message pres sm_type sm_size sm_payload parse_sei_nalu_avc parse_sei_nalu_hevc
   pass_payload pass_size decode_registered decode_unregistered decode_pic_timing_hevc.
